@@ -641,9 +641,7 @@ def run(ctx):
                 problems.append(("count-differs", "count(filters, row_filter=True) = %s but the read returned %s rows" % (o["count"], o["len"])))
             if problems:
                 ctx.fail(classify(spec, prog, problems[0][0], cols), case, "; ".join(p[1] for p in problems))
-            if "model" in o and any(op == "~" for g in prog["groups"] for _, op, _ in g):
-                ctx.count("model.skipped", "'~' operator (oracle only)")
-            elif "model" in o and has_wrong_type(spec, prog):
+            if "model" in o and has_wrong_type(spec, prog):
                 # a constant of another type than the column (text against an integer-valued directory level, ...): how the
                 # code types such a pair is not modelled row-wise (C08's typing rules decide); outside the grammar
                 ctx.count("model.skipped", "wrong-typed constant, read did not raise")
